@@ -1,6 +1,11 @@
 (* M-NA / Json: detail::JsonSink::write_log + generate_json_message, and a small recogniser for the
    JSON subset the sink can produce (one object, string members, no insignificant white space).
-   Definitions only. *)
+   Definitions only.
+   [json_line] is the line for a list of pairs appended as they are; [json_sink_line esc] is what the
+   sink writes for the pairs it is handed: esc = false is the sink as pinned (keys and values appended
+   raw: D16), esc = true the repaired sink (JsonSink::_append_escaping_newlines: every newline of a key
+   or value is written as the two characters backslash n).  Which one stands for the code is read
+   from the source on every run (TieC19.src_json_esc). *)
 From Coq Require Import List NArith Arith Bool.
 From Quill Require Import Format.NaFmt.
 Import ListNotations.
@@ -46,6 +51,16 @@ Fixpoint json_pairs (l : list (str * str)) : str :=
 
 Definition json_line (h : hdr) (t : str) (named : option (list (str * str))) : str :=
   json_fixed h t ++ json_pairs (match named with Some l => l | None => [] end) ++ [RB; NL].
+
+(* JsonSink::_append_escaping_newlines: the text with every '\n' replaced by the two bytes '\' 'n' *)
+Definition esc_nl (s : str) : str := flat_map (fun c => if N.eqb c NL then [BSL; 110%N] else [c]) s.
+Definition esc_if (esc : bool) (s : str) : str := if esc then esc_nl s else s.
+Definition esc_pairs (esc : bool) (l : list (str * str)) : list (str * str) :=
+  map (fun kv => (esc_if esc (fst kv), esc_if esc (snd kv))) l.
+
+(* the line the sink writes when it is handed the template [t] and the pairs [named] *)
+Definition json_sink_line (esc : bool) (h : hdr) (t : str) (named : option (list (str * str))) : str :=
+  json_line h t (option_map (esc_pairs esc) named).
 
 (* ---- a JSON recogniser ------------------------------------------------------------------------ *)
 (* Accepts  {"k":"v","k":"v",...}  with RFC 8259 strings restricted to ASCII: any byte 0x20..0x7F
